@@ -710,7 +710,8 @@ func matchesCallbackPath(log telemetry.Logger, config *oidcv1.OIDCConfig, httpRe
 	confPort := confURI.Port()
 	confHost := confURI.Hostname()
 	confScheme := confURI.Scheme
-	confPath := confURI.Path
+	// the request path is in its escaped form (as sent by the browser): compare it with the escaped form of the configured one
+	confPath := confURI.EscapedPath()
 	confHostAndPort := confHost
 	if confPort != "" {
 		confHostAndPort += ":" + confPort
